@@ -462,14 +462,14 @@ class snap_from_offset:
 class bpm_changes_snap_shape:
     """Interface contract used modularly by offsets/snaps: the snap-form list is parallel to the (sorted)
     offset-form list, well formed, starts at 0.0 and is non-decreasing in position.  Requires the offset list
-    sorted (TimingMap's constructors sort it) so that positions do not go backwards."""
+    sorted (TimingMap's constructors sort it; ties allowed: a zero-length segment) so that positions do not go backwards."""
 
     assumes = ["shape-bounded: 1..3 tempo changes; Snapper table abstract (I1-I4)"]
     pure = True  # for an already sorted offset list the in-place sort is the identity
 
     def requires(self):
         b = self.bpm_changes_offset
-        return all(wf_bco(x) for x in b) and all(x.offset < y.offset for x, y in zip(b[:-1], b[1:]))
+        return all(wf_bco(x) for x in b) and all(x.offset <= y.offset for x, y in zip(b[:-1], b[1:]))
 
     def ensures_parallel(self, result):
         b = self.bpm_changes_offset
@@ -506,7 +506,7 @@ class offsets_in_query_order:
 
     def requires(self, snaps):
         b = self.bpm_changes_offset
-        return (all(wf_bco(x) for x in b) and all(x.offset < y.offset for x, y in zip(b[:-1], b[1:]))
+        return (all(wf_bco(x) for x in b) and all(x.offset <= y.offset for x, y in zip(b[:-1], b[1:]))
                 and all(normal(s) for s in snaps))
 
     def requires_domain(self, snaps):
@@ -613,7 +613,7 @@ class snaps_in_query_order:
 
     def requires(self, offsets, snapper):
         b = self.bpm_changes_offset
-        return (all(wf_bco(x) for x in b) and all(x.offset < y.offset for x, y in zip(b[:-1], b[1:]))
+        return (all(wf_bco(x) for x in b) and all(x.offset <= y.offset for x, y in zip(b[:-1], b[1:]))
                 and all(t >= b[0].offset for t in offsets))
 
     def native_call(self, offsets, snapper):
